@@ -159,6 +159,14 @@ def obligations(tier):
                     obs.append(GOb(PID, f"{PID}/metrics.factors:congruence_coefficient/cost matrix ≡ −Π cosines ∧ value ≡ mean of the selected entries ∧ permutation ≡ assignment[rank={Rk},matrices={n_mats},absolute_value={av},assignment={list(perm)}]",
                                    "tensorly.metrics.factors:congruence_coefficient", setup, call, post, tenalg="core", instance=dict(rank=Rk, matrices=n_mats, absolute_value=av, assignment=list(perm)),
                                    clause="cost matrix ≡ −Π cosines ∧ value ≡ mean of the selected entries ∧ permutation ≡ assignment", forall=["row counts", "entries"], enumerated=["rank", "matrices", "absolute_value", "assignment"]))
+    # ====================================================================== cp_permute_factors: aligned components (the obligations of C04 on the same call sites:
+    # with the assignment solver by contract, column j of every permuted factor is the column the assignment matched to reference component j, the weights
+    # follow, and the tensor is preserved)
+    from . import c04
+    for ob in c04.obligations(tier):
+        if type(ob) is GOb and ob.function.endswith(":cp_permute_factors"):
+            obs.append(GOb(PID, f"{PID}/" + ob.name.split("/", 1)[1], ob.function, ob.setup, ob.call, ob.post, tenalg=ob.tenalg, assumptions=ob.assumptions, side_nonzero=ob.side_nonzero,
+                           instance=dict(ob.instance, source="C04"), clause=ob.clause, forall=list(ob.forall), enumerated=list(ob.enumerated)))
     # ====================================================================== correlation index: the scoring formula (E1-dense; the columns arrive normalised)
     from ..dense import d_max
     # (ranks 1, 2, 4: the code multiplies by the float 1/(2R), which is exact only for powers of two - with R = 3 the real-arithmetic identity is false by one rounding)
